@@ -4,4 +4,4 @@ Import ListNotations.
 From V Require Import Base.C26Ops.
 
 (* cmd/internal/gopfmt/fmt.go: writeFileWithBackup *)
-Definition gen_wfb : list fstmt := [SSplitPath; SCreateTemp; SRetIfErr; STmpName; SWrite; SIfNoErr [SIfStat true [SChmodStat]]; SCloseKeepErr; SIfErr [SRemoveTmp; SReturn]; SReturnRename].
+Definition gen_wfb : list fstmt := [SSplitPath; SDirDot; SCreateTemp; SRetIfErr; STmpName; SWrite; SIfNoErr [SIfStat true [SChmodStat]]; SCloseKeepErr; SIfErr [SRemoveTmp; SReturn]; SRenameElse [SRemoveTmp]; SReturn].
